@@ -105,6 +105,25 @@ func (p *Program) checkImmutable() []*Obligation {
 				if !ok {
 					continue
 				}
+				// whole-struct stores (*p = T{...}) overwrite every field of T: allowed only into fresh storage
+				if ap, isP := st.Addr.Type().Underlying().(*types.Pointer); isP {
+					for i, f := range fields {
+						if !types.Identical(ap.Elem(), f.named) {
+							continue
+						}
+						fresh := false
+						switch a := st.Addr.(type) {
+						case *ssa.Alloc:
+							fresh = true
+						case *ssa.FieldAddr:
+							_, fresh = a.X.(*ssa.Alloc)
+						}
+						if !fresh {
+							pos := p.fset.Position(st.Pos())
+							viol[i] = append(viol[i], fmt.Sprintf("%s overwrites a whole %s (including %s) at %s:%d", fn.String(), f.tc.Name, f.fname, pos.Filename, pos.Line))
+						}
+					}
+				}
 				fa, ok := st.Addr.(*ssa.FieldAddr)
 				if !ok {
 					continue
